@@ -53,6 +53,15 @@ var progSpecs = []progSpec{
 	{"util/sync2", "Map", "LoadOrStoreFn", "sync2_LoadOrStoreFn"},
 	{"util/sync2", "Map", "Load", "sync2_Load"},
 	{"util/fas", "", "Filter", "fas_Filter"},
+	{"container/factory", "PostProcessorRegistrationDelegate", "InitializeComponent", "del_InitializeComponent"},
+	{"container/factory", "PostProcessorRegistrationDelegate", "invokeInitMethods", "del_invokeInitMethods"},
+	{"container/factory", "PostProcessorRegistrationDelegate", "applyPostProcessBeforeInitialization", "del_applyBefore"},
+	{"container/factory", "PostProcessorRegistrationDelegate", "applyPostProcessAfterInitialization", "del_applyAfter"},
+	{"container/factory", "PostProcessorRegistrationDelegate", "ResolveAfterInstantiation", "del_ResolveAfterInstantiation"},
+	{"container/factory", "PostProcessorRegistrationDelegate", "GetEarlyBeanReference", "del_GetEarlyBeanReference"},
+	{"container/factory", "PostProcessorRegistrationDelegate", "ResolveBeforeInstantiation", "del_ResolveBeforeInstantiation"},
+	{"container/factory", "PostProcessorRegistrationDelegate", "applyPostProcessBeforeInstantiation", "del_applyBeforeInstantiation"},
+	{"container/factory", "PostProcessorRegistrationDelegate", "InvokeBeanFactoryPostProcessors", "del_InvokeBeanFactoryPostProcessors"},
 }
 
 // conversions whose single argument is passed through unchanged
